@@ -801,6 +801,10 @@ func init() {
 				// an op enqueued by the negotiation-needed callback in the worker's
 				// tail (as PeerConnection.onNegotiationNeeded does) while a Done waits
 				{0, [][2]int{{0, 0}, {3, 0}, {1, 0}}},
+				// two Enqueue callers around a callback that enqueues: three
+				// harness ops, the smallest configuration in which a queue with
+				// two goroutines would have two ops running at once
+				{0, [][2]int{{0, 0}, {3, 0}, {0, 0}}},
 			}
 			if argTier() == "thorough" {
 				cfgs = append(cfgs,
